@@ -1,7 +1,7 @@
 extern crate rand;
 use super::*;
 use crate::error;
-use crate::lang::{Error, Line, LineNumber, MaxValue};
+use crate::lang::{Error, Line, LineNumber};
 use std::collections::HashMap;
 use std::convert::TryFrom;
 use std::ops::{Range, RangeInclusive};
@@ -624,9 +624,6 @@ impl Runtime {
         let (from, to) = self.stack.pop_2()?;
         let from = LineNumber::try_from(from)?;
         let to = LineNumber::try_from(to)?;
-        if from == Some(0) && to == Some(LineNumber::max_value()) {
-            return Err(error!(IllegalFunctionCall));
-        }
         if self.listing.remove_range(from..=to) {
             self.dirty = true;
             self.state = State::Stopped;
